@@ -66,7 +66,7 @@ pub struct Agg {
     pub probes: BTreeMap<String, u64>,
     pub shapes: BTreeSet<u64>,
     pub sigs: BTreeSet<u64>,
-    pub sites: [u64; 8],
+    pub sites: [u64; 24],
     pub per_family: BTreeMap<String, u64>,
     pub fault_free_runs: u64,
     pub fault_runs: u64,
@@ -98,7 +98,7 @@ impl Agg {
             *self.probes.entry(k.to_string()).or_insert(0) += v;
         }
         self.shapes.extend(out.stats.shapes.iter().copied());
-        for i in 0..8 {
+        for i in 0..24 {
             self.sites[i] += out.sched.site_counts[i];
         }
     }
@@ -124,7 +124,7 @@ impl Agg {
         }
         self.shapes.extend(o.shapes);
         self.sigs.extend(o.sigs);
-        for i in 0..8 {
+        for i in 0..24 {
             self.sites[i] += o.sites[i];
         }
     }
@@ -494,7 +494,7 @@ pub fn run_check(spec: &CheckSpec, cfg: &RunCfg) -> i32 {
             "task_switches": agg.switches,
             "multi_task_runs": agg.multi_task_runs,
             "max_live_tasks": agg.max_live,
-            "yield_sites": {"detect": agg.sites[0], "compress_in_place": agg.sites[1], "compress_xof": agg.sites[2], "hash_many": agg.sites[3], "xof_many": agg.sites[4], "reader_call": agg.sites[5], "op_boundary": agg.sites[6], "join_split": agg.sites[7]},
+            "yield_sites": {"detect": agg.sites[0], "compress_in_place": agg.sites[1], "compress_xof": agg.sites[2], "hash_many": agg.sites[3], "xof_many": agg.sites[4], "reader_call": agg.sites[5], "op_boundary": agg.sites[6], "join_split": agg.sites[7], "c_get_cpu_features_load_store_gap": agg.sites[16], "c_compress_in_place": agg.sites[17], "c_compress_xof": agg.sites[18], "c_hash_many": agg.sites[19], "c_xof_many": agg.sites[20]},
             "faults_fired": agg.faults,
             "fault_free_runs": agg.fault_free_runs,
             "fault_injecting_runs": agg.fault_runs,
